@@ -55,12 +55,24 @@ NOTES = {
  'C08-8': 'strengthened: missed at first (no shared script with a list operand); a script and a filter expression whose list constants hold Go ints and a float32 added, snapshotted as constructed',
  'C08-9': 'strengthened: missed at first (no Unmarshal of malformed text among the concurrent calls); added to the oj and sen parse groups. C07 (pooled kind) catches it as well',
  'C09-8': 'an accept-set defect of oj.Tokenizer (a top-level literal on the slow path followed by a comma): the wrong position is a consequence; caught by C01 (BFS, every byte from every state)',
+ 'C11-7': 'strengthened: missed at first (the struct forms are flat reflect.StructOf types); an embedded-struct form (x promoted through two levels of embedding) added for paths of child, index and union fragments',
+ 'C12-8': 'strengthened: missed at first (many-valued operands were anchored at @ only); the operand forms gained a many-valued path anchored at $, evaluated as a filter inside a path where $ is not the element',
+ 'C14-7': 'strengthened: missed at first (a change in the code added by the repair 2e211bf); regex constants with even and odd runs of backslashes in front of the delimiter added',
+ 'C15-9': 'strengthened: missed at first (no value reached through two pointers); every one-field type is also written as **T by every encoder and must give the tree written for *T (naming, tags, embedding, BytesAs). This exposed a genuine defect of sen (listed: the fall-back ignores the ,string tag option)',
+ 'C16-7': 'strengthened: missed at first (no map whose elements are maps or structs by value); three container-of-container field kinds added to the type alphabet shared by C15 and C16',
+ 'C16-8': 'not caught by C16 (round trips use default options); caught by C15 (UseTags, embedded struct behind another field, pointer pass)',
+ 'C16-9': 'NOT caught: the change only shows for an embedded struct that itself carries a json tag. The type alphabet shared by C15 and C16 leaves such fields out because ojg flattens them while encoding/json treats them as named fields (a disagreement with the reference that would dominate C15); enumerating them for the round trips of C16 alone was not done for lack of time',
+ 'C17-8': 'a tokenizer defect (pending high surrogate surviving the end of a string): not caught by C17 (no surrogate escapes in its documents); caught by C02 (string-pair family)',
+ 'C17-9': 'strengthened: missed at first (targets had at most three fragments, and a failure was written off when a prefix ending in a bare descent failed too); targets with two descents (desc, step, desc, step) added and bare-descent prefixes no longer explain a failure',
+ 'C18-7': 'the same change as C03-7 proposed independently (gen.Parser): caught by C02',
+ 'C18-8': 'strengthened: missed at first (the pretty sweep had no Color); the width sweep now runs with and without Color (the colour escapes must not count as width)',
+ 'C20-9': 'strengthened: missed at first (no observation of aliasing between a result and $.src); functions whose description promises a copy (read from asm.FnDocs: reverse, sort) must return a list that shares no storage with their argument, for lists of length 0 to 3',
  'C13-3': 'strengthened: missed at first (RemoveOne doing nothing is within "at most one location", which the check accepts); the *One forms are now also compared between simple and gen data ("behave the same on simple and gen data")',
  'C17-3': 'not caught by C17 (its documents have plain keys); it is a tokenizer defect: C02 gained the string-pair family (every ordered pair of string items in five two-string placements, so that what one string leaves behind in a front-end shows in the next) and catches it',
  'C19-1': 'strengthened: missed at first; the perturbation catalogue gained rename (same member count, different key set)',
  'C20-1': 'strengthened: missed at first (each has no description in doc.go, asmref does not model it); an item-independence leg compares each(list) with the concatenation of each([item])',
 }
-ALSO = {'C16-3': 'C03', 'C10-2': 'C10, C02', 'C17-3': 'C02', 'C01-4': 'C07', 'C03-5': 'C07', 'C09-4': 'C07', 'C02-5': 'C07', 'C06-5': 'C07', 'C04-5': 'C07', 'C10-5': 'C07', 'C05-6': 'C12', 'C08-5': 'C08, C07', 'C17-5': 'C03', 'C17-6': 'C03', 'C12-6': 'C14', 'C14-5': 'C12', 'C16-4': 'C16, C15', 'C16-5': 'C15', 'C18-5': 'C18, C02, C03', 'C13-4': 'not caught (outside the stated data forms)', 'C02-7': 'C07', 'C02-8': 'C07', 'C02-9': 'C03', 'C03-7': 'C02', 'C05-9': 'C12', 'C06-7': 'C06, C03', 'C07-9': 'C15, C08', 'C08-9': 'C08, C07', 'C09-8': 'C01'}
+ALSO = {'C16-3': 'C03', 'C10-2': 'C10, C02', 'C17-3': 'C02', 'C01-4': 'C07', 'C03-5': 'C07', 'C09-4': 'C07', 'C02-5': 'C07', 'C06-5': 'C07', 'C04-5': 'C07', 'C10-5': 'C07', 'C05-6': 'C12', 'C08-5': 'C08, C07', 'C17-5': 'C03', 'C17-6': 'C03', 'C12-6': 'C14', 'C14-5': 'C12', 'C16-4': 'C16, C15', 'C16-5': 'C15', 'C18-5': 'C18, C02, C03', 'C13-4': 'not caught (outside the stated data forms)', 'C02-7': 'C07', 'C02-8': 'C07', 'C02-9': 'C03', 'C03-7': 'C02', 'C05-9': 'C12', 'C06-7': 'C06, C03', 'C07-9': 'C15, C08', 'C08-9': 'C08, C07', 'C09-8': 'C01', 'C16-8': 'C15', 'C16-9': 'not caught (tagged embedded fields are outside the type alphabet)', 'C17-8': 'C02', 'C18-7': 'C02'}
 verify = {}
 for l in open(os.path.join(SRC, 'verify.log')):
     m = re.match(r'(C\d+-\d): pkg=(\S+) suite_passes_with_change=(\S+) demo_fails_with_change=(\S+) demo_passes_without_change=(\S+) confirmed=(\d)', l)
